@@ -129,12 +129,12 @@ def check_case(case, ctx=None):
         raise Violation("closure-update:vs-edit", m, case)
     # a closure storing DIFFERENT arguments than the trace was made with: every method that takes a trace
     # must use the closure's stored arguments (EmptyRequest / Regenerate-of-nothing have no-change fast paths)
-    if variant in ("closure", "partial_apply") and len(stored) > 0 and not kw:
+    if variant == "closure" and len(stored) > 0 and not kw:  # (partial_apply closes over its arguments as constants: another function, not another argument value)
         from genjax import EmptyRequest, Regenerate, Selection
 
         st2_vals = case["newextra"][: len(stored)]
         stored2 = tuple(jnp.asarray(a, dtype=jnp.float32) for a in st2_vals)
-        obj2 = gf(*stored2) if variant == "closure" else gf.partial_apply(*stored2)
+        obj2 = gf(*stored2)
         full2 = list(st2_vals) + list(args[len(stored):])
         n2 = tuple(np.float32(a) for a in full2)
         ad2 = tuple(Diff.no_change(x) for x in extra)
